@@ -243,7 +243,11 @@ type c11Spec struct {
 
 // full=false draws from a reduced alphabet (used for the 2nd and 3rd glyph of a
 // set, where only offsets, padding and glyph kind interact).
-func c11MakeGlyph(c *explore.Ctx, full bool) *c11Spec {
+func c11MakeGlyph(c *explore.Ctx, full bool) *c11Spec { return c11MakeGlyphOpt(c, full, false) }
+
+// c11MakeGlyphOpt: with compositeFlags the glyph is a composite glyph whose components carry every
+// combination of the three transform flags (the first of scale, x-and-y scale and 2x2 decides the size).
+func c11MakeGlyphOpt(c *explore.Ctx, full, compositeFlags bool) *c11Spec {
 	coords := c11Coords
 	if c11Quick {
 		coords = []int16{0, 1, -256, 32767}
@@ -251,7 +255,10 @@ func c11MakeGlyph(c *explore.Ctx, full bool) *c11Spec {
 	if !full {
 		coords = []int16{0, -256}
 	}
-	kind := c.Choose(4, "glyph kind")
+	kind := 2
+	if !compositeFlags {
+		kind = c.Choose(3, "glyph kind")
+	}
 	switch kind {
 	case 0:
 		return &c11Spec{desc: "empty"}
@@ -326,7 +333,11 @@ func c11MakeGlyph(c *explore.Ctx, full bool) *c11Spec {
 				fl |= 1
 				args = []byte{0, byte(i), 0xFF, byte(2 * i)}
 			}
-			switch c.Choose(4, "transform") {
+			ntr := 4
+			if compositeFlags {
+				ntr = 8
+			}
+			switch c.Choose(ntr, "transform") {
 			case 1:
 				fl |= 0x0008
 				args = append(args, 0x40, 0)
@@ -336,6 +347,18 @@ func c11MakeGlyph(c *explore.Ctx, full bool) *c11Spec {
 			case 3:
 				fl |= 0x0080
 				args = append(args, 0x40, 0, 0, 1, 0, 2, 0x40, 0)
+			case 4: // more than one transform flag: the first in the order scale, x-and-y scale, 2x2 counts
+				fl |= 0x0008 | 0x0040
+				args = append(args, 0x40, 0)
+			case 5:
+				fl |= 0x0008 | 0x0080
+				args = append(args, 0x40, 0)
+			case 6:
+				fl |= 0x0040 | 0x0080
+				args = append(args, 0x40, 0, 0x20, 0)
+			case 7:
+				fl |= 0x0008 | 0x0040 | 0x0080
+				args = append(args, 0x40, 0)
 			}
 			fl |= 2
 			if i+1 < ncomp {
@@ -377,183 +400,193 @@ func c11Sets(r *run.Run) {
 	}
 	r.Explore(explore.Config{Name: "C11.sets", Deadline: r.PartDeadline(0.95)},
 		"glyph sets of 1..2 (quick) / 1..3 glyphs from {empty, simple (0..2 contours, 1..3 points, coordinates at the 8/16-bit boundaries, long/short/repeat-packed flags, instructions, 0/1/3 padding bytes), composite (1..3 components, byte/word args, every transform size, no/empty/2-byte instructions)} assembled independently; Decode -> Encode -> Decode is the identity bit for bit, loca is well formed, simple-glyph points agree with an independent decoder",
-		func(c *explore.Ctx) {
-			n := 1 + c.Choose(maxGlyphs, "glyphs")
-			var specs []*c11Spec
-			var glyfData []byte
-			offs := []int{0}
-			for i := 0; i < n; i++ {
-				s := c11MakeGlyph(c, i == 0)
-				specs = append(specs, s)
-				glyfData = append(glyfData, s.data...)
-				if len(glyfData)%2 != 0 {
-					glyfData = append(glyfData, 0)
-				}
-				offs = append(offs, len(glyfData))
+		c11SetsBody(maxGlyphs, false))
+	r.Explore(explore.Config{Name: "C11.component-flags"},
+		"one composite glyph of 1..3 components whose components carry all 8 combinations of the transform flags WE_HAVE_A_SCALE, WE_HAVE_AN_X_AND_Y_SCALE and WE_HAVE_A_TWO_BY_TWO (with more than one set, the first in this order decides the size of the record, as in the specification's pseudo code), byte/word arguments, every instruction variant: same oracle as C11.sets",
+		c11SetsBody(1, true))
+}
+
+func c11SetsBody(maxGlyphs int, compositeFlags bool) func(c *explore.Ctx) {
+	return func(c *explore.Ctx) {
+		n := 1 + c.Choose(maxGlyphs, "glyphs")
+		if compositeFlags {
+			n = 1
+		}
+		var specs []*c11Spec
+		var glyfData []byte
+		offs := []int{0}
+		for i := 0; i < n; i++ {
+			s := c11MakeGlyphOpt(c, i == 0, compositeFlags)
+			specs = append(specs, s)
+			glyfData = append(glyfData, s.data...)
+			if len(glyfData)%2 != 0 {
+				glyfData = append(glyfData, 0)
 			}
-			var desc []string
-			for _, s := range specs {
-				desc = append(desc, s.desc)
-			}
-			c.Sample(func() any { return desc })
-			long := c.Bool("long loca")
-			var loca []byte
-			for _, o := range offs {
-				if long {
-					loca = append(loca, byte(o>>24), byte(o>>16), byte(o>>8), byte(o))
-				} else {
-					loca = append(loca, byte(o/2>>8), byte(o/2))
-				}
-			}
-			lf := int16(0)
+			offs = append(offs, len(glyfData))
+		}
+		var desc []string
+		for _, s := range specs {
+			desc = append(desc, s.desc)
+		}
+		c.Sample(func() any { return desc })
+		long := c.Bool("long loca")
+		var loca []byte
+		for _, o := range offs {
 			if long {
-				lf = 1
+				loca = append(loca, byte(o>>24), byte(o>>16), byte(o>>8), byte(o))
+			} else {
+				loca = append(loca, byte(o/2>>8), byte(o/2))
 			}
-			gg, err := glyf.Decode(&glyf.Encoded{GlyfData: glyfData, LocaData: loca, LocaFormat: lf})
-			if err != nil {
-				c.Fail("C11.decode", "Decode", "well-formed glyf/loca rejected: %v (%v)", err, desc)
-				return
+		}
+		lf := int16(0)
+		if long {
+			lf = 1
+		}
+		gg, err := glyf.Decode(&glyf.Encoded{GlyfData: glyfData, LocaData: loca, LocaFormat: lf})
+		if err != nil {
+			c.Fail("C11.decode", "Decode", "well-formed glyf/loca rejected: %v (%v)", err, desc)
+			return
+		}
+		c.Outcome(glyfData, long)
+		if len(gg) != n {
+			c.Fail("C11.decode", "count", "%d glyphs decoded, want %d", len(gg), n)
+			return
+		}
+		nontrivial := false
+		for i, s := range specs {
+			g := gg[i]
+			if s.data == nil {
+				if g != nil {
+					c.Fail("C11.decode", "empty", "empty glyph %d decodes to %v", i, g)
+				}
+				continue
 			}
-			c.Outcome(glyfData, long)
-			if len(gg) != n {
-				c.Fail("C11.decode", "count", "%d glyphs decoded, want %d", len(gg), n)
-				return
+			if g == nil {
+				c.Fail("C11.decode", "nil", "glyph %d (%s) decodes to nil", i, s.desc)
+				continue
 			}
-			nontrivial := false
-			for i, s := range specs {
-				g := gg[i]
-				if s.data == nil {
-					if g != nil {
-						c.Fail("C11.decode", "empty", "empty glyph %d decodes to %v", i, g)
-					}
+			if s.simple {
+				sg, ok := g.Data.(glyf.SimpleGlyph)
+				if !ok {
+					c.Fail("C11.decode", "kind", "simple glyph decoded as %T", g.Data)
 					continue
 				}
-				if g == nil {
-					c.Fail("C11.decode", "nil", "glyph %d (%s) decodes to nil", i, s.desc)
-					continue
-				}
-				if s.simple {
-					sg, ok := g.Data.(glyf.SimpleGlyph)
-					if !ok {
-						c.Fail("C11.decode", "kind", "simple glyph decoded as %T", g.Data)
-						continue
-					}
-					nontrivial = true
-					info, err := func() (gi *glyf.GlyphInfo, err error) {
-						defer func() {
-							if r := recover(); r != nil {
-								err = fmt.Errorf("panic: %v", r)
-							}
-						}()
-						return sg.Decode()
+				nontrivial = true
+				info, err := func() (gi *glyf.GlyphInfo, err error) {
+					defer func() {
+						if r := recover(); r != nil {
+							err = fmt.Errorf("panic: %v", r)
+						}
 					}()
-					wantC, wantI, _, rerr := refDecodeSimple(int(sg.NumContours), s.data[10:])
-					if rerr != nil {
-						explore.Fatal("C11: reference decoder rejects its own assembly: %v (%s)", rerr, s.desc)
+					return sg.Decode()
+				}()
+				wantC, wantI, _, rerr := refDecodeSimple(int(sg.NumContours), s.data[10:])
+				if rerr != nil {
+					explore.Fatal("C11: reference decoder rejects its own assembly: %v (%s)", rerr, s.desc)
+				}
+				if err != nil {
+					sig := "SimpleGlyph.Decode"
+					if len(s.contours) == 0 {
+						sig = "SimpleGlyph.Decode zero contours"
 					}
-					if err != nil {
-						sig := "SimpleGlyph.Decode"
-						if len(s.contours) == 0 {
-							sig = "SimpleGlyph.Decode zero contours"
-						}
-						c.Fail("C11.points", sig, "SimpleGlyph.Decode fails on a well-formed glyph: %v (%s)", err, s.desc)
-						continue
+					c.Fail("C11.points", sig, "SimpleGlyph.Decode fails on a well-formed glyph: %v (%s)", err, s.desc)
+					continue
+				}
+				var got [][]refPoint
+				for _, ct := range info.Contours {
+					var pts []refPoint
+					for _, p := range ct {
+						pts = append(pts, refPoint{int16(p.X), int16(p.Y), p.OnCurve})
 					}
-					var got [][]refPoint
-					for _, ct := range info.Contours {
-						var pts []refPoint
-						for _, p := range ct {
-							pts = append(pts, refPoint{int16(p.X), int16(p.Y), p.OnCurve})
-						}
-						got = append(got, pts)
-					}
-					if !cmp.Equal(got, wantC, cmpopts.EquateEmpty()) || !cmp.Equal(got, s.contours, cmpopts.EquateEmpty()) {
-						c.Fail("C11.points", "contours", "points %v, independent decoder %v, assembled %v (%s)", got, wantC, s.contours, s.desc)
-					}
-					if !bytes.Equal(info.Instructions, wantI) {
-						c.Fail("C11.points", "instructions", "instructions % x want % x", info.Instructions, wantI)
-					}
-				} else {
-					cg, ok := g.Data.(glyf.CompositeGlyph)
-					if !ok {
-						c.Fail("C11.decode", "kind", "composite glyph decoded as %T", g.Data)
-						continue
-					}
-					nontrivial = true
-					if fmt.Sprint(g.Components()) != fmt.Sprint(s.comps) {
-						c.Fail("C11.components", "Components", "Components() = %v want %v", g.Components(), s.comps)
-					}
-					if !bytes.Equal(cg.Instructions, s.instr) {
-						c.Fail("C11.components", "instructions", "composite instructions % x want % x (%s)", cg.Instructions, s.instr, s.desc)
-					}
-					m := map[glyph.ID]glyph.ID{}
-					for _, id := range s.comps {
-						m[id] = id + 100
-					}
-					g2 := g.FixComponents(m)
-					for k, id := range g2.Components() {
-						if id != s.comps[k]+100 {
-							c.Fail("C11.components", "FixComponents", "component %d rewritten to %d want %d", k, id, s.comps[k]+100)
-						}
-					}
-					if fmt.Sprint(g.Components()) != fmt.Sprint(s.comps) {
-						c.Fail("C11.components", "FixComponents aliasing", "FixComponents modified the original glyph: %v", g.Components())
-					}
-					d1 := g.Data.(glyf.CompositeGlyph)
-					d2 := g2.Data.(glyf.CompositeGlyph)
-					for k := range d1.Components {
-						if d1.Components[k].Flags != d2.Components[k].Flags || !bytes.Equal(d1.Components[k].Data, d2.Components[k].Data) {
-							c.Fail("C11.components", "FixComponents", "flags/arguments of component %d changed", k)
-						}
-					}
-					// ... and, glyph indices apart, the rewritten glyph is the same glyph: the instruction block
-					// (also an empty one that is present) and the encoded length
-					if !bytes.Equal(d1.Instructions, d2.Instructions) || (d1.Instructions == nil) != (d2.Instructions == nil) {
-						c.Fail("C11.components", "FixComponents instructions", "FixComponents changes the instruction block from %#v to %#v (%s)", d1.Instructions, d2.Instructions, s.desc)
-					}
-					if l1, l2 := len((glyf.Glyphs{g}).Encode().GlyfData), len((glyf.Glyphs{g2}).Encode().GlyfData); l1 != l2 {
-						c.Fail("C11.components", "FixComponents length", "the glyph takes %d bytes, after FixComponents %d (%s)", l1, l2, s.desc)
+					got = append(got, pts)
+				}
+				if !cmp.Equal(got, wantC, cmpopts.EquateEmpty()) || !cmp.Equal(got, s.contours, cmpopts.EquateEmpty()) {
+					c.Fail("C11.points", "contours", "points %v, independent decoder %v, assembled %v (%s)", got, wantC, s.contours, s.desc)
+				}
+				if !bytes.Equal(info.Instructions, wantI) {
+					c.Fail("C11.points", "instructions", "instructions % x want % x", info.Instructions, wantI)
+				}
+			} else {
+				cg, ok := g.Data.(glyf.CompositeGlyph)
+				if !ok {
+					c.Fail("C11.decode", "kind", "composite glyph decoded as %T", g.Data)
+					continue
+				}
+				nontrivial = true
+				if fmt.Sprint(g.Components()) != fmt.Sprint(s.comps) {
+					c.Fail("C11.components", "Components", "Components() = %v want %v", g.Components(), s.comps)
+				}
+				if !bytes.Equal(cg.Instructions, s.instr) {
+					c.Fail("C11.components", "instructions", "composite instructions % x want % x (%s)", cg.Instructions, s.instr, s.desc)
+				}
+				m := map[glyph.ID]glyph.ID{}
+				for _, id := range s.comps {
+					m[id] = id + 100
+				}
+				g2 := g.FixComponents(m)
+				for k, id := range g2.Components() {
+					if id != s.comps[k]+100 {
+						c.Fail("C11.components", "FixComponents", "component %d rewritten to %d want %d", k, id, s.comps[k]+100)
 					}
 				}
-			}
-			if nontrivial {
-				c.Nontrivial()
-			}
-			// re-encode: the result must decode to equal glyphs, and a second encode must be identical
-			enc := gg.Encode()
-			if probs := checkLoca(enc, n); len(probs) > 0 {
-				c.Fail("C11.loca", "loca", "%s (%v)", probs[0], desc)
-			}
-			gg2, err := glyf.Decode(enc)
-			if err != nil {
-				c.Fail("C11.roundtrip", "Decode(Encode)", "Decode(Encode(gs)) fails: %v (%v)", err, desc)
-				return
-			}
-			if d := cmp.Diff(gg, gg2, cmpopts.EquateEmpty()); d != "" {
-				c.Fail("C11.roundtrip", "glyphs", "Decode(Encode(gs)) != gs (%v):\n%s", desc, trimDiff(d))
-			}
-			enc2 := gg2.Encode()
-			if !bytes.Equal(enc.GlyfData, enc2.GlyfData) || !bytes.Equal(enc.LocaData, enc2.LocaData) || enc.LocaFormat != enc2.LocaFormat {
-				c.Fail("C11.roundtrip", "bytes", "second Encode differs (%v)", desc)
-			}
-			// each glyph's bytes are preserved (modulo the trailing padding of simple glyphs)
-			p := 0
-			for i, s := range specs {
-				want := s.data
-				if s.simple {
-					_, _, used, _ := refDecodeSimple(len(s.contours), s.data[10:])
-					want = s.data[:10+used]
+				if fmt.Sprint(g.Components()) != fmt.Sprint(s.comps) {
+					c.Fail("C11.components", "FixComponents aliasing", "FixComponents modified the original glyph: %v", g.Components())
 				}
-				if len(want)%2 != 0 {
-					want = append(append([]byte{}, want...), 0)
+				d1 := g.Data.(glyf.CompositeGlyph)
+				d2 := g2.Data.(glyf.CompositeGlyph)
+				for k := range d1.Components {
+					if d1.Components[k].Flags != d2.Components[k].Flags || !bytes.Equal(d1.Components[k].Data, d2.Components[k].Data) {
+						c.Fail("C11.components", "FixComponents", "flags/arguments of component %d changed", k)
+					}
 				}
-				if p+len(want) > len(enc.GlyfData) || !bytes.Equal(enc.GlyfData[p:p+len(want)], want) {
-					c.Fail("C11.roundtrip", "glyph bytes", "glyph %d (%s) is not preserved bit for bit", i, s.desc)
-					break
+				// ... and, glyph indices apart, the rewritten glyph is the same glyph: the instruction block
+				// (also an empty one that is present) and the encoded length
+				if !bytes.Equal(d1.Instructions, d2.Instructions) || (d1.Instructions == nil) != (d2.Instructions == nil) {
+					c.Fail("C11.components", "FixComponents instructions", "FixComponents changes the instruction block from %#v to %#v (%s)", d1.Instructions, d2.Instructions, s.desc)
 				}
-				p += len(want)
+				if l1, l2 := len((glyf.Glyphs{g}).Encode().GlyfData), len((glyf.Glyphs{g2}).Encode().GlyfData); l1 != l2 {
+					c.Fail("C11.components", "FixComponents length", "the glyph takes %d bytes, after FixComponents %d (%s)", l1, l2, s.desc)
+				}
 			}
-		})
+		}
+		if nontrivial {
+			c.Nontrivial()
+		}
+		// re-encode: the result must decode to equal glyphs, and a second encode must be identical
+		enc := gg.Encode()
+		if probs := checkLoca(enc, n); len(probs) > 0 {
+			c.Fail("C11.loca", "loca", "%s (%v)", probs[0], desc)
+		}
+		gg2, err := glyf.Decode(enc)
+		if err != nil {
+			c.Fail("C11.roundtrip", "Decode(Encode)", "Decode(Encode(gs)) fails: %v (%v)", err, desc)
+			return
+		}
+		if d := cmp.Diff(gg, gg2, cmpopts.EquateEmpty()); d != "" {
+			c.Fail("C11.roundtrip", "glyphs", "Decode(Encode(gs)) != gs (%v):\n%s", desc, trimDiff(d))
+		}
+		enc2 := gg2.Encode()
+		if !bytes.Equal(enc.GlyfData, enc2.GlyfData) || !bytes.Equal(enc.LocaData, enc2.LocaData) || enc.LocaFormat != enc2.LocaFormat {
+			c.Fail("C11.roundtrip", "bytes", "second Encode differs (%v)", desc)
+		}
+		// each glyph's bytes are preserved (modulo the trailing padding of simple glyphs)
+		p := 0
+		for i, s := range specs {
+			want := s.data
+			if s.simple {
+				_, _, used, _ := refDecodeSimple(len(s.contours), s.data[10:])
+				want = s.data[:10+used]
+			}
+			if len(want)%2 != 0 {
+				want = append(append([]byte{}, want...), 0)
+			}
+			if p+len(want) > len(enc.GlyfData) || !bytes.Equal(enc.GlyfData[p:p+len(want)], want) {
+				c.Fail("C11.roundtrip", "glyph bytes", "glyph %d (%s) is not preserved bit for bit", i, s.desc)
+				break
+			}
+			p += len(want)
+		}
+	}
 }
 
 func checkLoca(enc *glyf.Encoded, n int) []string {
